@@ -124,7 +124,7 @@ def float_family(rep, tier, seed, replay=None):
     if replay:
         cases = [ftree.parse_replay(replay)]
     else:
-        for k in range(120 if tier == "quick" else 1500):
+        for k in range(120 if tier == "quick" else 12000):
             r = gen.rng(seed, "C01f", k)
             cases.append(ftree.make_case("c01f-%d" % k, cfgs[k % len(cfgs)], r, tier, False, False))
     for res in ftree.run_cases(cases, binaries):
